@@ -487,4 +487,15 @@ z3.RecAddDefinition(_IOTA, [_n], z3.If(_n <= 0, z3.Empty(IntSeq), z3.Concat(_IOT
 def iota(k):
     return _IOTA(k)
 
+# split_dot(s) = s.split("."): the standard recursive definition (head up to the first dot, then the split of the rest)
+_SPL = z3.RecFunction("split_dot", z3.StringSort(), StrSeq)
+_ss = z3.String("spl_s")
+_sd = z3.IndexOf(_ss, z3.StringVal("."), z3.IntVal(0))
+z3.RecAddDefinition(_SPL, [_ss], z3.If(_sd < 0, z3.Unit(_ss),
+                                      z3.Concat(z3.Unit(z3.SubString(_ss, 0, _sd)), _SPL(z3.SubString(_ss, _sd + 1, z3.Length(_ss) - _sd - 1)))))
+
+
+def split_dot(s):
+    return _SPL(s)
+
 dict_nonempty = z3.Function("dict_nonempty", z3.ArraySort(z3.StringSort(), z3.BoolSort()), z3.BoolSort())
